@@ -139,6 +139,7 @@ type Exec struct {
 	decideBranches bool
 	fixedOrder  bool
 	nconc       int
+	checkShared bool
 	blockLog    []blockRec
 	profile     map[string]*[3]int64 // fn -> self terms, calls, self ns
 	profStack   []profRec
@@ -523,6 +524,7 @@ func (ex *Exec) globalObj(x *ssa.Global) *Obj {
 		et := x.Type().(*types.Pointer).Elem()
 		o = newObj(zero(et), et)
 		o.name = x.String()
+		o.shared = true
 		ex.globals[x] = o
 	}
 	return o
@@ -652,8 +654,21 @@ func (ex *Exec) store(fr *Frame, p Ptr, v Value, what string) {
 		if c.obj == nil {
 			continue
 		}
+		ex.sharedWrite(fr, c.obj, And(fr.g, c.g), what)
 		c.obj.v = setPath(c.obj.v, c.path, v, And(fr.g, c.g))
 	}
+}
+
+// sharedWrite records a write to package-level (shared) state as a query (C15).
+func (ex *Exec) sharedWrite(fr *Frame, o *Obj, g *T, what string) {
+	if !ex.checkShared || allocShared || o == nil || !o.shared || g == FF {
+		return
+	}
+	name := o.name
+	if name == "" {
+		name = fmt.Sprintf("object#%d allocated by a package initialiser", o.id)
+	}
+	ex.queries = append(ex.queries, Query{"assert", "no-write-to-package-level-state: " + name + " written at " + what, g})
 }
 
 func (ex *Exec) readSlice(s SliceV, idx *T) Value {
@@ -756,6 +771,7 @@ func (ex *Exec) doAppend(fr *Frame, s, t SliceV, elem types.Type) Value {
 				}
 			}
 			if changed {
+				ex.sharedWrite(fr, sc.obj, gg, "append")
 				sc.obj.v = ArrayV{ncells}
 			}
 			resC = append(resC, SC{And(sc.g, inplace), sc.obj})
@@ -1101,6 +1117,9 @@ func (ex *Exec) step(fr *Frame, ins ssa.Instruction) {
 		k, v := ex.eval(fr, x.Key), ex.eval(fr, x.Value)
 		k, v = ex.concretize(fr.g, k), ex.concretize(fr.g, v)
 		for _, c := range m.c {
+			if c.m.shared && ex.checkShared && !allocShared {
+				ex.queries = append(ex.queries, Query{"assert", "no-write-to-package-level-state: map written at " + site(ins), And(fr.g, c.g)})
+			}
 			c.m.update(And(fr.g, c.g), k, v)
 		}
 	case *ssa.Slice:
